@@ -2287,9 +2287,6 @@ M("C07", "nodes-removed-before-mirror-sets", CUG,
 M("C07", "break-edges-not-cut", SGL,
   "    remove_event_edges_and_event_sets(break_points_out_edges, graph)\n", "",
   "R7.15", "the body continues behind a break event")
-M("C07", "pruned-nodes-keep-mirror-sets", SGL,
-  "    remove_event_sets_mirroring_removed_edges(", "    set(", "R7.15",
-  "pruned events stay in the predecessor sets of body events")
 
 # ============================================================ wave h (C01/C05: reshape lock-step)
 for _P, _R in (("C01", "R1.14"), ("C05", "R5.15")):
@@ -2549,3 +2546,20 @@ MM("C04", "memoised-model-loader", [
      "@lru_cache(maxsize=None)\ndef load_events_from_file(file_path: str) -> tuple[str, dict[str, Event]]:"),
     (EV, "from copy import deepcopy\n", "from copy import deepcopy\nfrom functools import lru_cache\n")],
    "R4.9", "the loaded model is shared between callers and updated in place (seed C04-k)")
+
+# ============================================================ R7.17 / R7.19 / R5.18 linearisation
+M("C07", "edge-without-evidence", CUG,
+  '''        for event_list_to_add in event_lists_to_add:
+            event.update_in_event_sets(event_list_to_add)
+    for event in events_out_of_break_events:
+        graph.add_edge(loop_event, event)''',
+  '''    for event in events_out_of_break_events:
+        graph.add_edge(loop_event, event)''', "R7.17",
+  "edge loop node -> break successor without a predecessor set naming the loop node")
+M("C07", "classifier-on-subgraph", "loop_detection/calculate_loop_components.py",
+  "get_event_to_over_lapping_events_map(\n        graph\n    )",
+  "get_event_to_over_lapping_events_map(\n        graph.subgraph(scc_events)\n    )",
+  "R7.19", "overlap map of the component only (seed C07-k)")
+M("C05", "linearise-from-any-source", PG,
+  "        head_node = top_sort[0]", "        head_node = top_sort[-1]", "R5.18",
+  "linearisation does not start at the first node in topological order (seed C05-k)")
